@@ -613,6 +613,9 @@ class RefParser:
         d = self.declarator(abstract=None, param=True)
         if d["name"] is None:
             return self.entity(spec, d, None, None, kind="typename")
+        if d["name"] in self.scope.stack[-1]:
+            # two parameters with the same name: redeclaration with no linkage (6.7p3), must be diagnosed
+            raise RefReject("duplicate parameter name")
         self.scope.declare(d["name"], False)
         return self.entity(spec, d, None, None)
 
